@@ -7,3 +7,8 @@ check("C09", "exploration", "exhaustive enumeration of every resampling index tu
       "Every index tuple the generator can return is executed against the real SMCSamples.resample for every population/temperature/size/namespace/dtype of a finite alphabet; the probability vector handed to the generator and the row identity of every copied field are compared with an mpmath reference.",
       "Finite alphabet of log-weights; generator modelled by a facade that records the p vector; float tolerance is rounding-aware.",
       "DESIGN.md 4/C09")
+
+check("C01", "exploration", "probability-weighted exhaustive exploration of all random outcomes of the real sampler on finite lattice instances (exact expectation, stateless explorer)",
+      "For lattice proposals/targets the unnormalised Feynman-Kac identity E[Zhat*mean f(x_final)] = h*sum L*pi*J*f holds exactly for every N; the explorer enumerates every proposal draw, resampling index tuple and kernel proposal/accept outcome of the real Aspire.sample_posterior (importance, smc, emcee_smc x none/default/logit/probit/periodic preconditioning x 1-3 fixed temperature steps x n_final_samples x namespaces), sums path probabilities (must be 1) and compares the exact expectation with the closed form for f = 1, x, x^2.",
+      "Stub lattice Metropolis kernel stands in for minipcn/emcee; adaptive schedules, affine whitening and flow preconditioning are population-dependent (finite-N identity is not a theorem) and are covered by the one-step checks C05/C07/C08/C09/C10; N=2, K<=3, T<=3.",
+      "DESIGN.md 4/C01")
